@@ -774,6 +774,13 @@ static void run_linker(StringArray *inputs, char *output) {
   run_subprocess(arr.data);
 }
 
+// An output file that is also an input would be truncated before, or
+// while, it is read. "-" is the standard input or output.
+static void check_output(char *output, char *input) {
+  if (strcmp(output, "-") && !strcmp(output, input))
+    error("input file '%s' is the same as output file", input);
+}
+
 static FileType get_file_type(char *filename) {
   if (opt_x != FILE_NONE)
     return opt_x;
@@ -805,6 +812,10 @@ int main(int argc, char **argv) {
 
   if (input_paths.len > 1 && opt_o && (opt_c || opt_S | opt_E))
     error("cannot specify '-o' with '-c,' '-S' or '-E' with multiple files");
+
+  if (opt_o)
+    for (int i = 0; i < input_paths.len; i++)
+      check_output(opt_o, input_paths.data[i]);
 
   StringArray ld_args = {};
 
@@ -871,12 +882,14 @@ int main(int argc, char **argv) {
 
     // Compile
     if (opt_S) {
+      check_output(output, input);
       run_cc1(argc, argv, input, output);
       continue;
     }
 
     // Compile and assemble
     if (opt_c) {
+      check_output(output, input);
       char *tmp = create_tmpfile();
       run_cc1(argc, argv, input, tmp);
       assemble(tmp, output);
